@@ -103,7 +103,13 @@ fn gen_string(rng: &mut Rng) -> String {
         14 => format!("{}:{} ", v4(rng), port(rng)),
         15 => format!("0{}.01.1.1:{}", rng.below(10), port(rng)), // leading zeros
         16 => format!("{}:0{}", v4(rng), rng.below(6000)),
-        17 => format!("{}:", v4(rng)),
+        17 => match rng.below(4) {
+            // what an integer parser accepts and the socket-address grammar does not: signs, spaces, underscores
+            0 => format!("{}:+{}", v4(rng), port(rng)),
+            1 => format!("[{}]:+{}", rng.pick(&v6s), port(rng)),
+            2 => format!("{}:-{}", v4(rng), rng.below(2)),
+            _ => format!("{}:", v4(rng)),
+        },
         18 => format!(":{}", port(rng)),
         19 => format!("[{}]", rng.pick(&v6s)),
         20 => {
